@@ -11,6 +11,8 @@ def check_groups(groups, n_features_in):
         for g in groups:
             all_indices.extend(list(g))
         # Ensure that the indices are valid
+        if any(isinstance(i, bool) or not isinstance(i, (int, np.integer)) for i in all_indices):
+            raise ValueError("Indices passed to the groups argument should be integers")
         if len(all_indices) > 0 and (min(all_indices) < 0 or max(all_indices) >= n_features_in):
             raise ValueError(f"Indices passed to the groups argument should be contained in [0, {n_features_in}]")
         if len(all_indices) == n_features_in:
